@@ -149,7 +149,8 @@ def spec_alphabet(S, events):
             if bad:
                 vals.append(bad[0])
             if dt == "string":
-                vals += ["a$b", "p=q", "$$x"]
+                # every metacharacter of the specifier syntax inside the VALUE ("verbatim"): '$', '=', '/'
+                vals += ["a$b", "p=q", "$$x", "p/q", "/r/s", "u/v=w"]
             for v in vals:
                 keys.append((nm, v))
             keys.append((nm.upper(), toks[0]))
@@ -223,6 +224,54 @@ def outcome(obs):
     return ("internal", core.exc_desc(obs[1]))
 
 
+def load_twice_on_one_loader(sch, text, specs, text2):
+    """One ExtendedConfigLoader object carrying the overrides serves two loads (text, then text2).
+    -> (outcome of load 1, outcome of load 2), or ('add-refused', exc) when a specifier is refused."""
+    import io
+    import ZConfig
+    import ZConfig.cmdline
+    ld = ZConfig.cmdline.ExtendedConfigLoader(sch)
+    try:
+        for sp in specs:
+            ld.addOption(sp)
+    except ZConfig.ConfigurationError as e:
+        return None
+    except Exception as e:
+        return None
+    out = []
+    for t in (text, text2):
+        try:
+            cfg, h = ld.loadFile(io.StringIO(t), H.URL)
+            out.append(("ok", cfg, h))
+        except ZConfig.ConfigurationError as e:
+            out.append(("rejected", e, None))
+        except Exception as e:
+            out.append(("internal", e, None))
+    return out
+
+
+def check_reload(sch, text, specs, text2, acc, mid):
+    """The same override list must act on EVERY load made through the loader that carries it."""
+    r = load_twice_on_one_loader(sch, text, specs, text2)
+    if r is None:
+        return
+    acc.ev()
+    acc.transitions += 1
+    acc.nt()
+    first, second = outcome(r[0]), outcome(r[1])
+    want1 = outcome(H.load(sch, text, overrides=list(specs)))
+    want2 = outcome(H.load(sch, text2, overrides=list(specs)))
+    acc.cls("reload:%s/%s" % (second[0], want2[0]))
+    case = {"member": mid, "text": text, "overrides": list(specs), "second_text": text2}
+    if first != want1:
+        acc.violation("first-load-on-loader-differs", case, [first[0], repr(first[1])[:300]],
+                      [want1[0], repr(want1[1])[:300]], tags={"kind": "loader-reuse", "step": 1})
+    elif second != want2:
+        acc.violation("second-load-on-same-loader-differs", case, [second[0], repr(second[1])[:300]],
+                      [want2[0], repr(want2[1])[:300]], tags={"kind": "loader-reuse", "step": 2,
+                                                               "first": first[0], "second": second[0]})
+
+
 def check_list(S, sch, events, text, specs, acc, mid, resolved_any):
     import ZConfig
     acc.ev()
@@ -280,6 +329,7 @@ def shard(member, acc):
     sch = H.load_schema(xml)
     mid = {"name": name, "schema": xml}
     nseeds = 0
+    prev_text = None
     maxseeds = 40 if tier == "quick" else 400
     pair_alpha = 8 if tier == "quick" else 12
     for events, d in C.nodes(S, root, depth, lean):
@@ -308,6 +358,14 @@ def shard(member, acc):
         for s in specs:
             check_list(S, sch, events, text, (s,), acc, mid, resolves[s])
             acc.transitions += 1
+        # one loader object, two loads: the same text again, and the previous seed of this schema
+        for s in specs:
+            if resolves[s] or "/" not in s.split("=", 1)[0]:
+                check_reload(sch, text, (s,), text, acc, mid)
+                if prev_text is not None:
+                    check_reload(sch, text, (s,), prev_text, acc, mid)
+                    check_reload(sch, prev_text, (s,), text, acc, mid)
+        prev_text = text
         # pairs (and triples in the thorough tier) over a sub-alphabet chosen to interact
         sub = [s for s in specs if resolves[s]][:pair_alpha // 2] + [s for s in specs if not resolves[s]][:pair_alpha // 2]
         for a, b in itertools.product(sub, repeat=2):
@@ -363,7 +421,9 @@ def run(tier):
              "(every section by name / type / upper case to depth 3 x declared, absent, unknown, wildcard and "
              "key-type-refused keys x convertible / empty / unconvertible / '$' / '=' values, absent sections, "
              "malformed specifiers); all single specifiers, all ordered pairs over an interacting sub-alphabet "
-             "(thorough: triples, quadruples on the first seeds).  states = seeds, transitions = override lists "
+             "(thorough: triples, quadruples on the first seeds); every resolving single specifier also on ONE loader object "
+             "serving two loads (the same text again; this seed and the previous seed of the schema in both orders), each "
+             "load compared with a fresh loader's.  states = seeds, transitions = override lists "
              "loaded.  Non-trivial = list with >= 1 specifier that resolves to an existing section."
              % ("40" if tier == "quick" else "400"),
         bounds={"members": len(mem), "max_list": 2 if tier == "quick" else 4},
@@ -373,6 +433,8 @@ def run(tier):
     a = run.acc
     run.require(a.classes.get("edit:tree override:tree", 0) > 200, "few accepted override loads")
     run.require(a.classes.get("edit:rejected override:rejected", 0) > 100, "few rejected override loads")
+    run.require(a.classes.get("reload:tree/tree", 0) > 1000 and a.classes.get("reload:rejected/rejected", 0) > 100,
+                "loader re-use hardly exercised")
     return run
 
 
@@ -384,7 +446,14 @@ def replay(body):
         obs = outcome(H.load(sch, case["text"], overrides=case["overrides"]))
         print("text:\n" + case["text"] + "overrides:", case["overrides"])
         print("observed with overrides:", obs[0], repr(obs[1])[:300])
-        if "edited" in case:
+        if "second_text" in case:
+            r = load_twice_on_one_loader(sch, case["text"], case["overrides"], case["second_text"])
+            second = outcome(r[1])
+            want2 = outcome(H.load(sch, case["second_text"], overrides=case["overrides"]))
+            print("second load on the same loader:", second[0], repr(second[1])[:300])
+            print("same load on a fresh loader:   ", want2[0], repr(want2[1])[:300])
+            rc = 1 if (second != want2 or outcome(r[0]) != obs) else rc
+        elif "edited" in case:
             exp = outcome(H.load(sch, case["edited"]))
             print("edited text:\n" + case["edited"] + "observed on edited text:", exp[0], repr(exp[1])[:300])
             if obs != exp:
